@@ -190,21 +190,45 @@ func c04NoSwallow(p *core.Program, r *core.Report) {
 	x := wire.NewExtractor(p)
 	decoderPkgs := map[string]bool{"io": true, "lang/value": true, "lang/pack": true, "lang/pack/udp": true, "lang/step": true, "lang/service": true, "util/hll": true, "util/list": true, "util/hmap": true}
 	n := 0
+	// decoders: functions that touch an input stream, and (three levels up) the functions of the
+	// decoder packages that call one — a recover() around a call of a decoder swallows its panic
+	// just the same (a background warm-up that decodes and recovers)
+	decodes := map[*types.Func]bool{}
 	for _, fi := range p.Funcs {
-		if fi.Decl.Body == nil || !decoderPkgs[core.RelPkg(fi.Pkg.PkgPath)] || strings.Contains(fi.Obj.Name(), "zzCanary") || strings.HasPrefix(fi.Obj.Name(), "zzSpec") {
+		if fi.Decl.Body == nil || !decoderPkgs[core.RelPkg(fi.Pkg.PkgPath)] {
 			continue
 		}
 		info := fi.Pkg.TypesInfo
-		reads := false
 		ast.Inspect(fi.Decl.Body, func(m ast.Node) bool {
 			if id, ok := m.(*ast.Ident); ok {
 				if o := info.ObjectOf(id); o != nil && x.IsIn(o.Type()) {
-					reads = true
+					decodes[fi.Obj] = true
 				}
 			}
 			return true
 		})
-		if !reads {
+	}
+	for round := 0; round < 3; round++ {
+		for _, fi := range p.Funcs {
+			if fi.Decl.Body == nil || !decoderPkgs[core.RelPkg(fi.Pkg.PkgPath)] || decodes[fi.Obj] {
+				continue
+			}
+			info := fi.Pkg.TypesInfo
+			ast.Inspect(fi.Decl.Body, func(m ast.Node) bool {
+				if call, ok := m.(*ast.CallExpr); ok {
+					if fn := calleeFunc(info, call); fn != nil && decodes[fn] {
+						decodes[fi.Obj] = true
+					}
+				}
+				return true
+			})
+		}
+	}
+	for _, fi := range p.Funcs {
+		if fi.Decl.Body == nil || !decoderPkgs[core.RelPkg(fi.Pkg.PkgPath)] || strings.Contains(fi.Obj.Name(), "zzCanary") || strings.HasPrefix(fi.Obj.Name(), "zzSpec") {
+			continue
+		}
+		if !decodes[fi.Obj] {
 			continue
 		}
 		n++
